@@ -398,8 +398,44 @@ var scenarios = []scenario{
 		t1 := time.Now()
 		id, st, err := newEnv(w)
 		fmt.Printf("NewEnvironment (critical tca fails at launch) -> id %q state %q after %.1fs\n  err %v\n  environments: %s\n", id, st, time.Since(t1).Seconds(), err, envs(w))
-		_ = waitAllTerminal(w)
+		// NOTE: the core only KILLs tasks it already saw ACTIVE; siblings whose TASK_RUNNING it had not processed
+		// yet when the deployment failed are dropped from its roster and keep running (observed ~1 run in 4).
+		if e := w.Master.Wait("siblings of the failed task killed", 5*time.Second, func(v *sim.View) bool {
+			for _, t := range v.Tasks {
+				if !t.Terminal {
+					return false
+				}
+			}
+			return true
+		}); e != nil {
+			fmt.Println("  !! tasks still running in the master 5 s after the failed NewEnvironment returned, unknown to the core:")
+		}
 		fmt.Printf("  sim tasks: %s\n  core tasks: %s\n", tasksLine(w), coreTasks(w))
+		return nil
+	}},
+	{"launch-failure-slow-siblings", func(w *sim.World) error {
+		// deterministic version of the race above: the siblings report TASK_RUNNING only after the deployment failed
+		w.SetOutcome(sim.Selector{Class: "tca"}, sim.EvLaunch, sim.Outcome{Kind: sim.Die})
+		w.SetOutcome(sim.Selector{Class: "tcb"}, sim.EvLaunch, sim.Outcome{Kind: sim.OK, Gate: "slowstart"})
+		w.SetOutcome(sim.Selector{Class: "tcc"}, sim.EvLaunch, sim.Outcome{Kind: sim.OK, Gate: "slowstart"})
+		_, _, err := newEnv(w)
+		fmt.Printf("NewEnvironment (tca fails at launch while tcb, tcc are still starting) -> err %v\n  environments: %s; core tasks: %s\n", err, envs(w), coreTasks(w))
+		dump(w)
+		fmt.Println("now tcb and tcc finish starting and report TASK_RUNNING")
+		w.Release("slowstart")
+		e := w.Master.Wait("late starters killed", 5*time.Second, func(v *sim.View) bool {
+			for _, t := range v.Tasks {
+				if !t.Terminal {
+					return false
+				}
+			}
+			return true
+		})
+		if e != nil {
+			fmt.Println("  !! 5 s later they are still running in the master and the core does not know them:")
+		}
+		fmt.Printf("  sim tasks: %s\n  core tasks: %s\n", tasksLine(w), coreTasks(w))
+		dump(w)
 		return nil
 	}},
 	{"slow-silent-foreign-die", func(w *sim.World) error {
